@@ -4,7 +4,18 @@
 (* is a composition of operations; every event logs the operand(s) before the  *)
 (* call and the result(s); the result of an event is bound to the variable cur *)
 (* and must be the operand of the next one (PreStateMatches).                  *)
+(*                                                                             *)
+(* Mode L for reflections through planes that are not axis-parallel: the code  *)
+(* normalises the normal (a square root), so the coordinates it returns are    *)
+(* not exact.  Such scenarios (e.lat > 0) log every coordinate as an Fx number *)
+(* (m.pfx); the exact images lie on the lattice Z / e.lat (e.lat = scale * the *)
+(* product of the |normal|^2).  CoordsOnLattice demands that every logged      *)
+(* coordinate is within LatTol of a lattice point; the lattice point is then   *)
+(* THE coordinate (integers at scale e.lat) and every clause of Surgery.tla is  *)
+(* evaluated exactly on it, with the rational reflection as oracle.            *)
 EXTENDS Surgery
+F == INSTANCE Fx
+LatTol == F!FxTol(30)            \* 2^-30 lattice units; float round-off is < 2^-40 of them, a wrong plane is >= 1
 
 Batch  == JsonDeserialize(IOEnv.TRACE_FILE)
 Events == Batch.events
@@ -13,14 +24,48 @@ N      == Len(Events)
 VARIABLES i, cur, bad, cnt
 vars == <<i, cur, bad, cnt>>
 
-Clauses(e, prev) ==
-  LET base == SurgeryClauses(e) IN
-  IF e.err = "" /\ e.pos > 1 /\ prev # <<>> THEN base @@ [PreStateMatches |-> e.self \in DOMAIN e.pre /\ e.pre[e.self] = prev] ELSE base
+Scaled(a, S)    == F!FxMulSmall(a, S)
+Snap(a, S)      == LET m == Scaled(a, S) IN m[1] + (IF m[2] >= 8192 THEN 1 ELSE 0)        \* nearest lattice point
+OnLattice(a, S) == F!FxWF(a) /\ a[1] \in -30000..30000 /\ F!FxNear(Scaled(a, S), F!FxInt(Snap(a, S)), LatTol)
+MeshOnLattice(m, S) == \A v \in DOMAIN m.pfx : \A j \in DOMAIN m.pfx[v] : OnLattice(m.pfx[v][j], S)
+SnapMesh(m, S)  == [m EXCEPT !.p = [v \in DOMAIN m.pfx |-> [j \in DOMAIN m.pfx[v] |-> Snap(m.pfx[v][j], S)]]]
+IsLat(e)        == e.err = "" /\ e.lat > 0
+CoordsOnLattice(e) == /\ e.lat \in 1..32767
+                      /\ \A j \in DOMAIN e.pre : MeshOnLattice(e.pre[j], e.lat)
+                      /\ \A j \in DOMAIN e.post : MeshOnLattice(e.post[j], e.lat)
+Exact(e) == [e EXCEPT !.pre = [j \in DOMAIN e.pre |-> SnapMesh(e.pre[j], e.lat)],
+                      !.post = [j \in DOMAIN e.post |-> SnapMesh(e.post[j], e.lat)]]
+
+\* the document the harness wrote has the shape this specification reads (evaluated first: a malformed event is a
+\* failure of the machinery, reported by name instead of a TLC evaluation error)
+EventFields == {"a", "op", "err", "pre", "post", "par", "ck_pre", "ck_post", "self", "lat", "sid", "pos"}
+ParFields   == {"elements", "ix", "skips", "skipb", "fnum", "fden", "d", "nrm", "p0", "nn", "A", "b", "facets", "fv",
+                "ret", "proj", "sign", "xmap"}
+MeshFields  == {"kind", "cls", "p", "t", "nf", "hass", "hasb", "sub", "bnd"}
+HarnessInputWellFormed(e) ==
+  /\ EventFields \subseteq DOMAIN e
+  /\ ParFields \subseteq DOMAIN e.par
+  /\ \A j \in DOMAIN e.pre  : MeshFields \subseteq DOMAIN e.pre[j]  /\ (e.lat > 0 => "pfx" \in DOMAIN e.pre[j])
+  /\ \A j \in DOMAIN e.post : MeshFields \subseteq DOMAIN e.post[j] /\ (e.lat > 0 => "pfx" \in DOMAIN e.post[j])
+  /\ e.err = "" => (e.op \in {"refine", "setup"} \/ (Len(e.pre) >= 1 /\ Len(e.post) >= 1))
+
+Clauses(e0, prev) ==
+  IF ~HarnessInputWellFormed(e0) THEN [HarnessInputWellFormed |-> FALSE]
+  ELSE IF IsLat(e0) /\ ~CoordsOnLattice(e0) THEN [NoUnexpectedError |-> TRUE, CoordsOnLattice |-> FALSE]
+  ELSE LET e    == IF IsLat(e0) THEN Exact(e0) ELSE e0
+           base == SurgeryClauses(e) @@ (IF IsLat(e0) THEN [CoordsOnLattice |-> TRUE] ELSE <<>>)
+       IN IF e.err = "" /\ e.pos > 1 /\ prev # <<>>
+          THEN base @@ [PreStateMatches |-> e.self \in DOMAIN e.pre /\ e.pre[e.self] = prev] ELSE base
+Result(e0) == IF ~HarnessInputWellFormed(e0) THEN <<>> ELSE
+              LET e == IF IsLat(e0) /\ CoordsOnLattice(e0) THEN Exact(e0) ELSE e0 IN
+              IF e.err # "" \/ Len(e.post) = 0 \/ Len(e.pre) = 0 \/ (IsLat(e0) /\ ~CoordsOnLattice(e0)) THEN <<>>
+              ELSE IF e.op = "trace" THEN e.pre[1]      \* the chain goes on with the traced mesh itself
+              ELSE e.post[1]
 
 Bump(c, r) == [k \in DOMAIN c \cup DOMAIN r |->
                  (IF k \in DOMAIN c THEN c[k] ELSE 0) + (IF k \in DOMAIN r THEN 1 ELSE 0)]
 \* per operation: how often it was judged (evidence)
-OpCount(e) == IF e.err = "" THEN [x \in {"op_" \o e.op} |-> TRUE] ELSE <<>>
+OpCount(e) == IF HarnessInputWellFormed(e) /\ e.err = "" THEN [x \in {"op_" \o e.op} |-> TRUE] ELSE <<>>
 
 Init == i = 1 /\ cur = <<>> /\ bad = <<>> /\ cnt = <<>>
 
@@ -30,9 +75,7 @@ Step == /\ i <= N
            IN /\ bad' = bad \o [k \in 1..Cardinality(Failed(r)) |->
                                   [sid |-> e.sid, pos |-> e.pos, clause |-> SetToSeq(Failed(r))[k]]]
               /\ cnt' = Bump(Bump(cnt, r), OpCount(e))
-              /\ cur' = IF e.err # "" \/ Len(e.post) = 0 \/ Len(e.pre) = 0 THEN <<>>
-                        ELSE IF e.op = "trace" THEN e.pre[1]      \* the chain goes on with the traced mesh itself
-                        ELSE e.post[1]
+              /\ cur' = Result(e)
         /\ i' = i + 1
 
 Finish == /\ i = N + 1
